@@ -236,7 +236,7 @@ def cfg_items():
 PANIC_PAT = re.compile(r"\.unwrap\(\)|\.expect\(|\bpanic!|\bunreachable!|\bunimplemented!|\btodo!|\bassert(_eq|_ne)?!\(|"
                        r"\b[a-z_][a-z0-9_]*(\.[a-z_][a-z0-9_]*)*\[[^\]\n;]+\]|\bas (u8|u16|u32|i16|i32|usize|f32)\b")
 APP_FILES = ["apps/src/1090/1090.rs", "apps/src/radar/radar.rs", "apps/src/radar/airplanes.rs", "apps/src/radar/stats.rs", "apps/src/radar/cli.rs",
-             "apps/src/radar/map.rs", "apps/src/radar/coverage.rs", "apps/src/radar/help.rs"]
+             "apps/src/radar/map.rs", "apps/src/radar/coverage.rs", "apps/src/radar/help.rs", "apps/src/radar/airport.rs"]
 def panic_sites(files=None):
     """inventory of the constructs that can panic or silently wrap in the two library crates (outside tests and the
     verification hooks): unwrap/expect, panic-family macros, assertions, slice indexing, narrowing casts; one line per
